@@ -197,6 +197,7 @@ def cond_params(draw, kind, R, Dx, Dy, kappa=100.0, zero_M=False):
     if kind in ("identity", "identity_diag"):
         assert Dx == Dy
         p["Sigma"] = draw(spd(R, Dy, kappa=kappa, diag=diag))
+        _cond_past(draw, p, R, Dy, kappa, diag)
         return p
     if kind == "nn":
         # Sigma has R=1; the batch comes from the control input u [R, Du]
@@ -216,7 +217,16 @@ def cond_params(draw, kind, R, Dx, Dy, kappa=100.0, zero_M=False):
     p["M"] = M
     p["b"] = draw(arr((R, Dy)))
     p["Sigma"] = draw(spd(R, Dy, kappa=kappa, diag=diag))
+    _cond_past(draw, p, R, Dy, kappa, diag)
     return p
+
+
+def _cond_past(draw, p, R, Dy, kappa, diag):
+    """A quarter of the linear conditionals have a past: libx.make_cond first builds them with the noise covariance
+    `past_Sigma0`, queries them (transformations, log-conditional integrals: whatever the object memoises gets filled) and
+    then brings them to the target noise covariance with update_Sigma; they are judged like freshly built objects."""
+    if draw(st.sampled_from([False, False, False, True])):
+        p["past_Sigma0"] = draw(spd(R, Dy, kappa=kappa, diag=diag))
 
 
 def cond_np(p):
